@@ -13,12 +13,12 @@ import programs
 
 def run_family(pid, tier, family, invariants, props, cats, bounds, sample_n, j=1,
                required_actions=(), verdict=None, note='', pads=(0,), watch=False,
-               jitter=False, repeat=1, sched_independent=False, cmd_timeout=60, confirm_spec=None, min_cmds=2):
+               jitter=False, repeat=1, sched_independent=False, cmd_timeout=60, confirm_spec=None, min_cmds=2, subdir=None):
     """family: list of program dicts.  bounds: (max_hist, max_cmds).  Returns (verdict, coverage)."""
     t0 = time.time()
     verdict = verdict or common.Verdict(pid)
     bindir = common.build_redo()
-    root = common.workdir(pid + '_' + tier)
+    root = common.workdir(pid + '_' + tier + ('_' + subdir if subdir else ''))
     max_hist, max_cmds = bounds
     tot_states = tot_trans = 0
     tot_groups = tot_replayed = tot_alts = 0
